@@ -39,7 +39,7 @@ class Prop:
     def select(self, tier, only=None):
         hs = [h for h in self.harnesses if ("q" in h.tiers if tier == "quick" else ("q" in h.tiers or "t" in h.tiers))]
         if only:
-            hs = [h for h in hs if only in h.name]
+            hs = [h for h in hs if only in h.name or only in (h.group + ":" + h.name)]
         return hs
 
     def run(self, tier, seed, only=None):
@@ -546,6 +546,9 @@ _api = [H("core_units", "api::" + n, t, timeout=to, mem=12, mode="nomem", doc=d)
     ("keyid_sid_44", "t", 1800, "KeyId<Secret>"), ("keyid_pid_44", "t", 1800, "KeyId<Public>"),
     ("key_fromstr_is_keytext_then_decode", "qt", 900, "Key::from_str = KeyText::from_str then V::decode on exactly the decoded bytes (header fixed, 4-char symbolic tail)"),
     ("keyid_roundtrip_eq_ord_hash", "t", 1800, "KeyId: FromStr(Display(id)) == id; Eq/Ord/Hash agree with the 33 bytes"),
+    ("keyid_hdr_cross_kind_sid", "qt", 1200, "KeyId<Secret>: every 33-byte id under the headers k4.lid. / k4.pid. / k3.sid. rejected, under k4.sid. accepted"),
+    ("keyid_hdr_cross_kind_lid", "t", 1200, "KeyId<Local>: ids under k4.sid. / k4.pid. / k3.lid. rejected"), ("keyid_hdr_cross_kind_pid", "t", 1200, "KeyId<Public>: ids under k4.lid. / k4.sid. / k3.pid. rejected"),
+    ("keyid_hdr_kind_letter", "t", 1200, "KeyId<Secret>: symbolic kind letter, k4.?id.AAAA…: accepted iff ? == 's'"),
     ("token_shape_plain", "t", 600, "concrete companion: v4.local.AAAA accepted and re-serialised"), 
     ("token_shape_footer", "t", 600, "concrete: payload.footer"), ("token_shape_two_trailing_dots", "qt", 600, "concrete: payload.. rejected"),
     ("token_shape_footer_trailing_dot", "qt", 600, "concrete: payload.footer. rejected"), ("token_shape_three_segments", "t", 600, "concrete: three segments rejected"),
